@@ -300,3 +300,99 @@ Proof.
     destruct r as [|s1 r']; [discriminate F'|]. exists s1. split; [right; left; reflexivity | apply LT; left; reflexivity].
   - destruct (IH _ F' LI' n a H) as [s' [I1 I2]]. exists s'. split; [right; exact I1 | exact I2].
 Qed.
+
+(* ---------- LineSymbolMap::new accepts the table ---------- *)
+Lemma nth_z_app {A} (l l' : list A) j : 0 <= j ->
+  nth_z (l ++ l') j = if j <? len l then nth_z l j else nth_z l' (j - len l).
+Proof.
+  intros Hj. unfold nth_z, len. destruct (j <? 0) eqn:E0; [lia|].
+  destruct (j <? Z.of_nat (length l)) eqn:E1.
+  - apply nth_error_app1. lia.
+  - destruct (j - Z.of_nat (length l) <? 0) eqn:E2; [lia|]. rewrite nth_error_app2 by lia. f_equal. lia.
+Qed.
+Lemma nth_z_defined {A} (l : list A) i : 0 <= i < len l -> exists v, nth_z l i = Some v.
+Proof.
+  intros H. unfold nth_z, len in *. destruct (i <? 0) eqn:E; [lia|].
+  destruct (nth_error l (Z.to_nat i)) eqn:N; [eexists; reflexivity|]. apply nth_error_None in N. lia.
+Qed.
+
+Lemma runs'_elems (P : Z -> Z -> Prop) lines : forall i cur,
+  (forall c, cur = Some c -> forall j v, nth_z c j = Some v -> P (i - len c + j) v) ->
+  (forall j v, nth_z lines j = Some (Some v) -> P (i + j) v) ->
+  forall k r, In (k, r) (runs' lines i cur) -> forall j v, nth_z r j = Some v -> P (k + j) v.
+Proof.
+  induction lines as [|[a|] lines IH]; intros i cur HC HL k r H j v Hj; cbn [runs'] in H; [contradiction| |].
+  - refine (IH (i + 1) _ _ _ k r H j v Hj).
+    + intros c' Ec j' v' Hj'. injection Ec as <-. pose proof (nth_z_some _ _ _ Hj') as R.
+      destruct cur as [c|].
+      * unfold snoc in *. rewrite nth_z_app in Hj' by lia. rewrite len_app in *. assert (L1 : len [a] = 1) by reflexivity. rewrite L1 in *.
+        destruct (j' <? len c) eqn:E.
+        -- replace (i + 1 - (len c + 1) + j') with (i - len c + j') by lia. exact (HC c eq_refl j' v' Hj').
+        -- assert (j' = len c) by lia. subst j'. rewrite Z.sub_diag in Hj'. cbn in Hj'. injection Hj' as <-.
+           replace (i + 1 - (len c + 1) + len c) with (i + 0) by lia. apply HL. reflexivity.
+      * assert (L1 : len [a] = 1) by reflexivity. rewrite L1 in *. assert (j' = 0) by lia. subst j'. cbn in Hj'. injection Hj' as <-.
+        replace (i + 1 - 1 + 0) with (i + 0) by lia. apply HL. reflexivity.
+    + intros j' v' Hj'. pose proof (nth_z_some _ _ _ Hj'). replace (i + 1 + j') with (i + (j' + 1)) by lia. apply HL.
+      rewrite nth_z_cons by lia. replace (j' + 1 - 1) with j' by lia. exact Hj'.
+  - assert (REST : In (k, r) (runs' lines (i + 1) None) -> P (k + j) v).
+    { intros H'. refine (IH (i + 1) None _ _ k r H' j v Hj); [discriminate|].
+      intros j' v' Hj'. pose proof (nth_z_some _ _ _ Hj'). replace (i + 1 + j') with (i + (j' + 1)) by lia. apply HL.
+      rewrite nth_z_cons by lia. replace (j' + 1 - 1) with j' by lia. exact Hj'. }
+    destruct cur as [bl|]; [|exact (REST H)]. destruct H as [H|H]; [|exact (REST H)].
+    injection H as <- <-. exact (HC bl eq_refl j v Hj).
+Qed.
+
+Lemma adj_windows r : (forall j v1 v2, nth_z r j = Some v1 -> nth_z r (j + 1) = Some v2 -> v1 <= v2) -> windows_all Z.leb r = true.
+Proof.
+  induction r as [|a r IH]; intros H; [reflexivity|]. destruct r as [|b r']; [reflexivity|].
+  cbn [windows_all]. apply andb_true_iff. split.
+  - apply Z.leb_le. apply (H 0 a b); reflexivity.
+  - apply IH. intros j v1 v2 H1 H2. pose proof (nth_z_some _ _ _ H1). apply (H (j + 1) v1 v2).
+    + rewrite nth_z_cons by lia. replace (j + 1 - 1) with j by lia. exact H1.
+    + rewrite nth_z_cons by lia. replace (j + 1 + 1 - 1) with (j + 1) by lia. exact H2.
+Qed.
+
+Definition table (text : str) (p : list stmt) : list (option Z) :=
+  fold_left apply_entry (entries text p) (repeat None (Z.to_nat (count_lines text))).
+
+Lemma table_in text p n a : lines_inc text p ->
+  (nth_z (table text p) n = Some (Some a) <-> In (n, a) (entries text p)).
+Proof.
+  intros LI. split.
+  - intros H. pose proof (nth_z_some _ _ _ H) as R. unfold table in H.
+    apply table_spec in H; [| lia | rewrite entries_ents; apply ent_nodup; exact LI |].
+    + destruct H as [H|[_ H]]; [exact H|]. apply nth_z_repeat_none in H. discriminate.
+    + intros [n' a'] He. cbn [fst]. rewrite len_repeat. rewrite entries_ents in He. unfold ents in He.
+      apply in_flat_map in He. destruct He as [[c s] [_ He]]. apply entry_in in He. destruct He as [-> _].
+      unfold line_of. pose proof (get_line_range text (s_start s)). lia.
+  - intros H. assert (R : 0 <= n < count_lines text).
+    { rewrite entries_ents in H. unfold ents in H. apply in_flat_map in H. destruct H as [[c s] [_ He]]. apply entry_in in He. destruct He as [-> _].
+      unfold line_of. apply get_line_range. }
+    unfold table. apply table_spec; [lia | rewrite entries_ents; apply ent_nodup; exact LI | | left; exact H].
+    intros [n' a'] He. cbn [fst]. rewrite len_repeat. rewrite entries_ents in He. unfold ents in He.
+    apply in_flat_map in He. destruct He as [[c s] [_ He]]. apply entry_in in He. destruct He as [-> _].
+    unfold line_of. pose proof (get_line_range text (s_start s)). lia.
+Qed.
+
+Theorem table_accepted text p : typed p = true -> lines_inc text p ->
+  lsm_new (table text p) = Some (runs' (table text p) 0 None).
+Proof.
+  intros T LI. rewrite lsm_new_spec.
+  assert (R : runs_sorted (runs' (table text p) 0 None) = true); [|rewrite R; reflexivity].
+  unfold runs_sorted. apply forallb_forall. intros [k r] H. cbn [snd]. apply adj_windows. intros j v1 v2 H1 H2.
+  assert (EL : forall j v, nth_z r j = Some v -> In (k + j, v) (entries text p)).
+  { apply (runs'_elems (fun n v => In (n, v) (entries text p)) (table text p) 0 None); [discriminate | | exact H].
+    intros j' v' Hj'. cbn [Z.add]. apply (table_in text p j' v' LI). exact Hj'. }
+  pose proof (EL j v1 H1) as I1. pose proof (EL (j + 1) v2 H2) as I2. replace (k + (j + 1)) with (k + j + 1) in I2 by lia.
+  rewrite entries_ents in I1, I2. exact (proj1 (ent_adj text p T None LI _ _ _ I1 I2)).
+Qed.
+
+Theorem assemble_debug_total text p : typed p = true -> lines_inc text p -> assemble true (Some text) p <> APanic.
+Proof.
+  intros T LI. unfold assemble.
+  assert (P1 : pass1 p (Some text) <> APanic).
+  { apply (pass1_debug_total text p T). fold (table text p). rewrite (table_accepted text p T LI). discriminate. }
+  destruct (pass1 p (Some text)) as [sym|k sp|] eqn:E; cbn [abind]; [|discriminate|contradiction].
+  pose proof (pass1_ok (Some text) p sym T E) as OK. destruct sym as [L rel dbg]. cbn [st_labels] in OK.
+  pose proof (pass2_spec p L rel dbg true T OK) as S. destruct (pass2 p _ true); [discriminate|discriminate|contradiction].
+Qed.
